@@ -217,7 +217,7 @@ fn ev_strategy() -> impl Strategy<Value = Ev> {
 }
 
 pub fn run(ctx: &Ctx) {
-    ctx.set_rule("breadth-first exploration, through the real update() (hook H2), of the UI states reachable from start-up for tables of 0, 1, 2 and 3 rows over the alphabet {j,k,g,q,a,c,v,.,f,l,-,/,Esc,Enter,Backspace,Up,Down,Home,PageUp,x,J,PageDown,Tab,Tick(120),Tick(80),Error}; states abstracted to (quit, search mode, query length capped at 2, sort key, order, width, selected row); every edge is executed by replaying its shortest path from a fresh application state. Plus proptest-random sequences up to 300 events (any printable char, any tick width) on tables of 0..=3, 10 and 1000 rows. Oracle: no panic; selected row = 0 on an empty table, < rows otherwise; (quit, search mode, sort key, order) and the query equal a reference automaton written from docs/output.md and the table's help line. Non-trivial = a distinct (rows, model state, event) edge.");
+    ctx.set_rule("breadth-first exploration, through the real update() (hook H2), of the UI states reachable from start-up for tables of 0, 1, 2 and 3 rows over the alphabet {j,k,g,q,a,c,v,.,f,l,-,/,Esc,Enter,Backspace,Up,Down,Home,PageUp,x,J,PageDown,Tab,Tick(120),Tick(80),Error}; states abstracted to (quit, search mode, query length capped at 2, sort key, order, width, selected row); every edge is executed by replaying its shortest path from a fresh application state. Plus every printable ASCII character, six non-ASCII characters and every special key in each of ten contexts; search patterns of 1 to 300 one- to four-byte characters typed and erased; and proptest-random sequences up to 300 events (any printable char, any tick width) on tables of 0..=3, 10 and 1000 rows. Oracle: no panic; selected row = 0 on an empty table, < rows otherwise; (quit, search mode, sort key, order) and the query equal a reference automaton written from docs/output.md and the table's help line. Non-trivial = a distinct (rows, model state, event) edge.");
     ctx.assume("the row count is fixed during a sequence (rows are rebuilt by the renderer, which is outside update())");
     let pool = Pool::new(16);
     for rows in 0..=3usize {
@@ -225,6 +225,67 @@ pub fn run(ctx: &Ctx) {
     }
     ctx.exhaustive.store(true, std::sync::atomic::Ordering::Relaxed);
     ctx.set_extra("exhaustive_note", json!("the abstract state graph (query length capped at 2) is explored completely for 0..=3 rows; random sequences are sampled"));
+    // "other char" and "other key" are classes: every printable ASCII character, some non-ASCII ones and every
+    // special key the driver knows, pressed in each of a few contexts (start-up, after moving, search mode with an
+    // empty / non-empty pattern, after leaving search mode), on tables of 0..=3 rows
+    {
+        let mut keys: Vec<String> = (0x20u8..0x7f).map(|b| (b as char).to_string()).collect();
+        keys.extend(["\u{e9}", "\u{df}", "\u{65e5}", "\u{1f600}", "\u{301}", "\u{a0}"].iter().map(|s| s.to_string()));
+        keys.extend(["Esc", "Enter", "Backspace", "Up", "Down", "Home", "PageUp", "PageDown", "End", "Tab", "Left", "Right", "Delete"].iter().map(|s| s.to_string()));
+        let k = |s: &str| Ev::Key(s.to_string());
+        let contexts: Vec<Vec<Ev>> = vec![vec![], vec![k("j")], vec![k("k")], vec![k("/")], vec![k("/"), k("a")], vec![k("/"), k("\u{e9}")], vec![k("/"), k("a"), k("Enter")], vec![k("/"), k("Backspace")], vec![k("-"), k("a")], vec![Ev::Tick(40)]];
+        let mut cases: Vec<(usize, Vec<Ev>)> = vec![];
+        for rows in 0..=3usize {
+            for c in &contexts {
+                for key in &keys {
+                    let mut seq = c.clone();
+                    seq.push(Ev::Key(key.clone()));
+                    seq.push(Ev::Key("j".into()));
+                    seq.push(Ev::Key("k".into()));
+                    cases.push((rows, seq));
+                }
+            }
+        }
+        let fails: Vec<Failure> = cases.par_iter().filter_map(|(rows, seq)| check_seq(ctx, &pool, *rows, seq, true).err()).collect();
+        let mut seen = std::collections::BTreeSet::new();
+        let mut fails = fails;
+        fails.sort_by(|a, b| a.signature.cmp(&b.signature).then(a.detail.len().cmp(&b.detail.len())));
+        for f in fails {
+            if seen.insert(f.signature.clone()) {
+                ctx.judge(Err(f));
+            }
+        }
+        ctx.class_n("every character / special key in each of 10 contexts x 0..=3 rows", cases.len() as u64);
+    }
+    // long patterns typed in search mode: 1-, 2-, 3- and 4-byte characters in every mix, then erased again
+    {
+        let units = ["a", "\u{e9}", "\u{65e5}", "\u{1f600}"];
+        let mut cases: Vec<Vec<Ev>> = vec![];
+        for n in [1usize, 7, 15, 16, 31, 32, 33, 47, 48, 49, 63, 64, 65, 100, 127, 128, 129, 255, 256, 300] {
+            for first in 0..4usize {
+                for second in 0..4usize {
+                    let mut seq = vec![Ev::Key("/".into())];
+                    seq.extend((0..n).map(|_| Ev::Key(units[first].into())));
+                    seq.push(Ev::Key(units[second].into()));
+                    seq.push(Ev::Key(units[(second + 1) % 4].into()));
+                    seq.extend((0..n + 3).map(|_| Ev::Key("Backspace".into())));
+                    seq.push(Ev::Key("Enter".into()));
+                    seq.push(Ev::Key("j".into()));
+                    cases.push(seq);
+                }
+            }
+        }
+        let fails: Vec<Failure> = cases.par_iter().enumerate().filter_map(|(i, seq)| check_seq(ctx, &pool, i % 4, seq, true).err()).collect();
+        let mut seen = std::collections::BTreeSet::new();
+        let mut fails = fails;
+        fails.sort_by(|a, b| a.signature.cmp(&b.signature).then(a.detail.len().cmp(&b.detail.len())));
+        for f in fails {
+            if seen.insert(f.signature.clone()) {
+                ctx.judge(Err(f));
+            }
+        }
+        ctx.class_n("long search patterns of multi-byte characters, typed and erased", cases.len() as u64);
+    }
     let n = ctx.tier.pick(4_000u32, 100_000u32);
     let shards = 16u32;
     (0..shards).into_par_iter().for_each(|s| {
